@@ -831,7 +831,8 @@ func (f *frame) specEnv(cur *State) *specEnv {
 				// go/ssa captures variables by reference: the name denotes the captured variable's value in the
 				// state the expression is evaluated in (so that old(x) is the value at entry)
 				if pt, isP := fv.Type().(*types.Pointer); isP {
-					if _, isS := pt.Elem().Underlying().(*types.Struct); !isS {
+					_, isArr := pt.Elem().Underlying().(*types.Array)
+					if _, isS := pt.Elem().Underlying().(*types.Struct); !isS && !isArr {
 						if env.cells == nil {
 							env.cells = map[string]T{}
 						}
